@@ -307,7 +307,10 @@ def annotate_file(src, fspec, relfile):
                     else:
                         raise ValueError("bad @at argument: " + arg)
                 elif b.kind == "closure":
-                    n = int(b.arg.strip())
+                    optional = b.arg.strip().endswith("optional")
+                    n = int(b.arg.split()[0])
+                    if n > len(f.closures) and optional:
+                        continue
                     if n > len(f.closures):
                         raise AnchorLost("%s: `%s` has %d closures, contract refers to closure %d" % (relfile, fs.path, len(f.closures), n))
                     cl = f.closures[n - 1]
